@@ -25,9 +25,16 @@ def meaning(o):
 def gen_histories(chk, mdl, n):
     r = chk.rng
     texts = uris.valid_texts(mdl, uris.small_texts(3, queries=(None,))) + \
-            uris.valid_texts(mdl, uris.small_texts(2, alphabet=uris.SEG_FULL, auths=(None, "//H%41", "//u@[::1]:8", "//1.2.3.4", "//[vF.x]", "//%31.2.3.4", "//[::A:1.2.3.4]"), schemes=(None, "S"), queries=(None, "%7e"), frags=(None, "F")))
+            uris.valid_texts(mdl, uris.small_texts(2, alphabet=uris.SEG_FULL, auths=(None, "//H%41", "//u@[::1]:8", "//1.2.3.4", "//[vF.x]", "//%31.2.3.4", "//[::A:1.2.3.4]"), schemes=(None, "S"), queries=(None, "%7e"), frags=(None, "F"))) + \
+            uris.valid_texts(mdl, uris.small_texts(3, alphabet=["", "..", "a", "b:c"], auths=(None, "//", "//h"), schemes=(None, "s"), queries=(None,)))
     abs_texts = [t for t in texts if t[:2].lower() == "s:"]
     out = []
+    # fixed part: every small reference with dot segments goes through normalize -> resolve -> normalize -> create reference -> make owner
+    tricky = [t for t in texts if ("." in t.split("?")[0].split("/") or ".." in t.split("?")[0].split("/")) and len(t) <= 12]
+    bases = ["s:/x/y", "s://h/x/y", "s:///x", "s:x/y"]
+    for k, t in enumerate(tricky[: max(200, n // 10)]):
+        b = bases[k % len(bases)]
+        out.append(uris.hist([('p', 0, t), ('p', 1, b), ('n', 0, 8 if k % 2 else 63), ('a', 2, 0, 1, k % 2), ('n', 2, 63), ('r', 3, 2, 1, (k // 2) % 2), ('o', 3), ('r', 4, 1, 2, 0)]))
     for _ in range(n):
         steps = []
         L = r.choice([3, 5, 8, 12])
@@ -74,6 +81,8 @@ def run(chk):
                 chk.violation("crash or memory not fully returned after the history: " + o[-160:], {"request": hreq[i], "build": fl, "impl": o}); continue
             toks = hreq[i].split()[1:]
             for si, s in enumerate(steps):
+                if s.get("obj") is not None: s["obj"].step_tok = toks[si]
+            for si, s in enumerate(steps):
                 if "bad" in s:
                     chk.violation("malformed object (half-NULL or reversed range, or tail not the last node): " + s["bad"][:120], {"request": hreq[i], "step": si, "build": fl, "impl": o}); break
                 if s.get("obj") is not None:
@@ -86,8 +95,13 @@ def run(chk):
         texts = sorted(set(p[3] for p in produced))
         back = dict(zip(texts, lib.run_lines(exes[fl], ["parse %s 3" % t for t in texts])))
         chk.cov["evaluations"] += len(texts)
+        tainted = {}      # history index -> slots holding an object that a normalization step left in a defect shape
         for i, si, ob, t, o in produced:
             b = back[t]
+            tok = ob.step_tok; op = tok[0]; tslots = tainted.setdefault(i, set())
+            dst = int(tok[1:].split("=")[0]) if tok[1:].split("=")[0].isdigit() else None
+            args = [int(x) for x in tok.split("=")[1].split(",")[:2]] if op in ("a", "r") else []
+            excusable = (op == "n") or (op == "o" and dst in tslots) or any(a in tslots for a in args)
             why = None
             if not b.startswith("parse 0 "): why = "the recomposed text %s is not a valid URI reference" % show(t)
             else:
@@ -97,9 +111,14 @@ def run(chk):
                 shape = None
                 if not ob.has_host() and ob.scheme == "-" and ob.abs == "0" and ob.segs and "3a" in ob.segs[0].split("."): shape = "c08_rel_exposes_colon"
                 if not ob.has_host() and path_text(ob).startswith("2f.2f") or (not ob.has_host() and path_text(ob) == "2f.2f"): shape = "c08_abs_exposes_dslash"
-                if shape and o == model[i] and fnd.covers(shape, {"history": hreq[i], "step": si}): continue
-                chk.violation(why, {"request": hreq[i], "step": si, "build": fl, "impl": o, "text": show(t), "read_back": b, "shape": shape})
-            elif fl == "A": nontrivial.add(t)
+                if shape and excusable and o == model[i] and fnd.covers(shape, {"history": hreq[i], "step": si}):
+                    if dst is not None: tslots.add(dst)
+                    continue
+                chk.violation(why, {"request": hreq[i], "step": si, "build": fl, "impl": o, "text": show(t), "read_back": b, "shape": shape,
+                                    "note": None if not shape else "the shape is a listed finding only for a normalization step (or a step fed with such an object); this step is %s" % tok})
+            else:
+                if dst is not None: tslots.discard(dst)
+                if fl == "A": nontrivial.add(t)
     if corr and not chk.violations:
         i, fl, o = corr[0]
         chk.violation("correspondence broken: model and implementation disagree on a history (%d cases)" % len(corr),
